@@ -64,9 +64,7 @@ let err_text _ = []
 let fuel = nat_of_int 3
 
 let run_compr k zero ps =
-  match lower_comprehension k zero ps with
-  | None -> "COMPILE-ERROR"
-  | Some e ->
+  (let e = lower_comprehension k zero ps in
     let spec = spec_comprehension k zero ps [] [] in
     (match eval err_text fuel e [] [] with
      | ((RVal vs, _), tr) ->
@@ -76,7 +74,7 @@ let run_compr k zero ps =
         | _ -> s ^ "\tSPECDIFF")
      | ((RPanic _, _), _) -> "PANIC"
      | ((RStuck, _), _) -> "STUCK"
-     | _ -> "OTHER")
+     | _ -> "OTHER"))
 
 let () =
   try while true do
@@ -96,9 +94,7 @@ let () =
             | _ -> run_compr CExists (VInt Z0) ps)
          | "for" ->
            let p = phrase () in let b = expr () in
-           (match lower_forphrase p (SExpr (EProbe (n_of_int 100, b))) with
-            | None -> "COMPILE-ERROR"
-            | Some s ->
+           (let s = lower_forphrase p (SExpr (EProbe (n_of_int 100, b))) in
               (match exec err_text fuel s [] [] with
                | ((RVal _, _), tr) -> Printf.sprintf "v=-\tt=%s" (show_trace tr)
                | ((RPanic _, _), _) -> "PANIC"
